@@ -137,6 +137,17 @@ class VInt(V):
         return f'VInt({self.z})'
 
 
+class VReal(V):
+    """Python float modelled as an exact real (only comparisons are supported)."""
+    typ = T('float')
+
+    def __init__(self, z):
+        self.z = z
+
+    def __repr__(self):
+        return f'VReal({self.z})'
+
+
 class VBool(V):
     typ = T('bool')
 
